@@ -225,6 +225,34 @@ pub mod prelude {
     pub assume_specification<'a, T: ?Sized + AsRef<std::ffi::OsStr>>[ <OsString as From<&'a T>>::from ](s: &T) -> (r: OsString)
         ensures r == os_from::<T>(s);
 
+    // ---- the process environment (C18): a fixed external input of a run
+    pub uninterp spec fn env_var(k: &'static str) -> Option<OsString>;
+    /// A-std-env: what `std::env::var_os(k)` returns (uninterpreted per key type; pinned down for `&&'static str` below)
+    pub uninterp spec fn env_lookup<K>(k: K) -> Option<OsString>;
+    #[verifier::external_body]
+    pub broadcast proof fn axiom_env_lookup_str(k: &&'static str)
+        ensures #[trigger] env_lookup::<&&'static str>(k) == env_var(*k),
+    {}
+    #[verifier::allow(undeclared_external_trait)]
+    pub assume_specification<K: AsRef<std::ffi::OsStr>> [std::env::var_os::<K>] (k: K) -> (r: Option<OsString>)
+        ensures r == env_lookup::<K>(k);
+
+    /// `f` gives `None` on element j / its first `Some` on element i
+    pub open spec fn fm_miss<T, B, F: FnMut(T) -> Option<B>>(f: F, rem: Seq<T>, j: int) -> bool { call_ensures(f, (rem[j],), None::<B>) }
+    pub open spec fn fm_hit<T, B, F: FnMut(T) -> Option<B>>(f: F, rem: Seq<T>, i: int, b: B) -> bool {
+        0 <= i < rem.len() && call_ensures(f, (rem[i],), Some(b)) && forall|j: int| 0 <= j < i ==> #[trigger] fm_miss(f, rem, j)
+    }
+    pub open spec fn fm_none<T, B, F: FnMut(T) -> Option<B>>(f: F, rem: Seq<T>) -> bool { forall|j: int| 0 <= j < rem.len() ==> #[trigger] fm_miss(f, rem, j) }
+    /// A-std-findmap: `slice::Iter::find_map(f)` returns the first `Some` that `f` gives on the remaining elements, in order
+    pub assume_specification<'a, T, B, F: FnMut(&'a T) -> Option<B>> [<std::slice::Iter<'a, T> as std::iter::Iterator>::find_map] (it: &mut std::slice::Iter<'a, T>, f: F) -> (r: Option<B>)
+        where std::slice::Iter<'a, T>: Sized
+        ensures
+            r matches Some(b) ==> exists|i: int| #[trigger] fm_hit(f, old(it).remaining(), i, b),
+            r is None ==> fm_none(f, old(it).remaining());
+
+    pub assume_specification<T: Copy> [Option::<&T>::copied] (o: Option<&T>) -> (r: Option<T>)
+        ensures r == (match o { Some(x) => Some(*x), None => None });
+
     /// bpaf::meta_youmean::Suggestion: opaque (T8)
     #[verifier::external_body]
     pub struct Suggestion { _opaque: () }
@@ -616,8 +644,8 @@ pub mod spec {
         }
     }
 
-    /// the process environment is an external, fixed input of a run: "one of these variables is set"
-    pub uninterp spec fn env_present(names: Seq<&'static str>) -> bool;
+    /// "one of these variables is set"
+    pub open spec fn env_present(names: Seq<&'static str>) -> bool { env_value(names) is Some }
 
     /// relational denotation assumed for ParseFlag::eval (src/params.rs:534-564, iterator + std::env code):
     /// on the line -> leftmost matching item consumed, `present`; else variable set -> `present`, nothing consumed;
@@ -629,7 +657,7 @@ pub mod spec {
                 && post.items == pre.items && post.scope == pre.scope && post.path == pre.path
                 && r is Ok
         } else {
-            post.same_but_current(pre) && (
+            same_but_current_c(post, pre) && (
                 if env_present(named.env@) { r is Ok }
                 else { match absent_v { Some(a) => r is Ok, None => r is Err && (r->Err_0.0 is Missing || r->Err_0.0 is NoEnv) } })
         }
@@ -681,8 +709,28 @@ pub mod spec {
     /// A-parse_os_str: conversion of an OS string into T (src/from_os_str.rs; TypeId/Any/FromStr code) is an uninterpreted function
     pub uninterp spec fn os_parse<T>(os: OsString) -> Result<T, String>;
 
-    /// the value of the first set variable among `names` (the environment is a fixed external input of a run)
-    pub uninterp spec fn env_value(names: Seq<&'static str>) -> Option<OsString>;
+    /// the value of the first set variable among `names`, in declaration order (C18: only declared variables matter)
+    pub open spec fn env_value(names: Seq<&'static str>) -> Option<OsString>
+        decreases names.len(),
+    {
+        if names.len() == 0 { None } else if env_var(names[0]) is Some { env_var(names[0]) } else { env_value(names.drop_first()) }
+    }
+    /// a NamedArg can be looked for: it has a short or long name or an environment variable
+    pub open spec fn named_has_key(n: NamedArg) -> bool { n.short@.len() > 0 || n.long@.len() > 0 || n.env@.len() > 0 }
+    /// the name an item is listed under: first short and first long name
+    pub open spec fn first_names(n: NamedArg) -> Result<ShortLong, ()> {
+        if n.short@.len() == 0 && n.long@.len() == 0 { Err(()) }
+        else if n.short@.len() == 0 { Ok(ShortLong::Long(n.long@[0])) }
+        else if n.long@.len() == 0 { Ok(ShortLong::Short(n.short@[0])) }
+        else { Ok(ShortLong::Both(n.short@[0], n.long@[0])) }
+    }
+    pub open spec fn first_env(env: Seq<&'static str>) -> Option<&'static str> { if env.len() == 0 { None } else { Some(env[0]) } }
+    /// everything but `current` and the completion bookkeeping is equal; the bookkeeping too outside completion mode
+    pub open spec fn same_but_current_c(post: State, pre: State) -> bool {
+        &&& post.items == pre.items && post.item_state == pre.item_state && post.remaining == pre.remaining
+        &&& post.path == pre.path && post.scope == pre.scope
+        &&& (no_comp(pre) ==> post.comp_eq(pre))
+    }
 
     /// relational denotation of parse_pos_word: the strictness table of C09
     pub open spec fn pos_rel(position: Position, metavar: Metavar, pre: State, r: Result<OsString, Error>, post: State) -> bool {
@@ -710,12 +758,12 @@ pub mod spec {
                     &&& post.remaining == pre.remaining - 2 && post.current == Some((k + 1) as usize)
                     &&& post.items == pre.items && post.scope == pre.scope && post.path == pre.path
                 } else {
-                    r is Err && is_no_argument(r->Err_0, k, metavar) && post == pre
+                    r is Err && is_no_argument(r->Err_0, k, metavar) && unchanged(pre, post)
                 })
         } else {
             match env_value(named.env@) {
-                Some(v) => r == Ok::<OsString, Error>(v) && post.same_but_current(pre) && post.current is None,
-                None => r is Err && (r->Err_0.0 is Missing || r->Err_0.0 is NoEnv) && post == pre,
+                Some(v) => r == Ok::<OsString, Error>(v) && same_but_current_c(post, pre) && post.current is None,
+                None => r is Err && (r->Err_0.0 is Missing || r->Err_0.0 is NoEnv) && unchanged(pre, post),
             }
         }
     }
@@ -1214,6 +1262,72 @@ pub mod lemmas {
         decreases k,
     {
         if k > 0 { lemma_esc_all_prefix(frags, x, ap, k - 1); }
+    }
+//@@ end
+
+//@@ lemma
+//@@ unit lemmas.env_first_set_variable tags=C18,C06
+    pub proof fn lemma_env_value_first(names: Seq<&'static str>, i: int)
+        requires 0 <= i < names.len(), env_var(names[i]) is Some, forall|j: int| 0 <= j < i ==> env_var(#[trigger] names[j]) is None,
+        ensures env_value(names) == env_var(names[i]),
+        decreases i,
+    {
+        if i > 0 {
+            let t = names.drop_first();
+            assert(t[i - 1] == names[i]);
+            assert forall|j: int| 0 <= j < i - 1 implies env_var(#[trigger] t[j]) is None by { assert(t[j] == names[j + 1]); }
+            lemma_env_value_first(t, i - 1);
+        }
+    }
+    pub proof fn lemma_env_value_none(names: Seq<&'static str>)
+        requires forall|j: int| 0 <= j < names.len() ==> env_var(#[trigger] names[j]) is None,
+        ensures env_value(names) is None,
+        decreases names.len(),
+    {
+        if names.len() > 0 {
+            let t = names.drop_first();
+            assert forall|j: int| 0 <= j < t.len() implies env_var(#[trigger] t[j]) is None by { assert(t[j] == names[j + 1]); }
+            lemma_env_value_none(t);
+        }
+    }
+    /// what `env.iter().find_map(std::env::var_os)` computes: the first set variable in declaration order
+    pub proof fn lemma_env_find_hit_val(names: Seq<&'static str>, b: OsString)
+        requires exists|i: int| #[trigger] fm_hit(std::env::var_os::<&&'static str>, names.as_ref(), i, b),
+        ensures env_value(names) == Some(b),
+    {
+        broadcast use axiom_env_lookup_str;
+        let rem = names.as_ref();
+        let i = choose|i: int| #[trigger] fm_hit(std::env::var_os::<&&'static str>, rem, i, b);
+        assert(rem.len() == names.len());
+        assert(*rem[i] == names[i]);
+        assert(env_lookup::<&&'static str>(rem[i]) == Some(b));
+        assert forall|j: int| 0 <= j < i implies env_var(#[trigger] names[j]) is None by {
+            assert(fm_miss(std::env::var_os::<&&'static str>, rem, j));
+            assert(*rem[j] == names[j]);
+            assert(env_lookup::<&&'static str>(rem[j]) is None);
+        }
+        lemma_env_value_first(names, i);
+    }
+    pub proof fn lemma_env_find_hit(names: Seq<&'static str>)
+        requires exists|i: int, b: OsString| #[trigger] fm_hit(std::env::var_os::<&&'static str>, names.as_ref(), i, b),
+        ensures env_value(names) is Some,
+    {
+        let (i, b) = choose|i: int, b: OsString| #[trigger] fm_hit(std::env::var_os::<&&'static str>, names.as_ref(), i, b);
+        lemma_env_find_hit_val(names, b);
+    }
+    pub proof fn lemma_env_find_miss(names: Seq<&'static str>)
+        requires fm_none(std::env::var_os::<&&'static str>, names.as_ref()),
+        ensures env_value(names) is None,
+    {
+        broadcast use axiom_env_lookup_str;
+        let rem = names.as_ref();
+        assert(rem.len() == names.len());
+        assert forall|j: int| 0 <= j < names.len() implies env_var(#[trigger] names[j]) is None by {
+            assert(fm_miss(std::env::var_os::<&&'static str>, rem, j));
+            assert(*rem[j] == names[j]);
+            assert(env_lookup::<&&'static str>(rem[j]) is None);
+        }
+        lemma_env_value_none(names);
     }
 //@@ end
 
@@ -2282,13 +2396,36 @@ impl Doc {
 //@@ end
 
 
+//@@ fn src/item.rs | impl TryFrom for ShortLong | fn try_from
+//@@ unit item.ShortLong.try_from tags=C12,C18 inherent
+//@@ ret r
+//@@ spec
+        ensures r == first_names(*named), // #listed_under_first_short_and_first_long_name
+//@@ end
+
+//@@ fn src/params.rs | impl NamedArg | fn flag_item
+//@@ unit params.NamedArg.flag_item tags=C12,C18
+//@@ ret r
+//@@ spec
+        ensures
+            r is Some == (first_names(*self) is Ok), // #an_item_iff_it_has_a_name
+            r matches Some(i) ==> i is Flag && i->Flag_name == first_names(*self)->Ok_0 && i->Flag_shorts@ == self.short@ && i->Flag_env == first_env(self.env@) && i->Flag_help == self.help, // #name_env_help_are_the_declared_ones
+//@@ end
+
 //@@ fn src/params.rs | impl Parser for ParseFlag | fn eval
-//@@ unit params.ParseFlag.eval tags=C18,C10 external_body
+//@@ unit params.ParseFlag.eval tags=C18,C10,C06 only=default
 //@@ members
-    open spec fn pwf(&self) -> bool { true }
+    open spec fn pwf(&self) -> bool { named_has_key(self.named) }
     open spec fn rel(&self, pre: State, r: Result<T, Error>, post: State) -> bool {
         flag_rel(self.named, self.present, self.absent, pre, r, post)
     }
+//@@ insert before 1 `Ok(self.present.clone())`
+proof {
+    let on_line = exists|i: int| #[trigger] old(args).avail(i) && self.named.matches_spec(old(args).items[i], false);
+    if !on_line { lemma_env_find_hit(self.named.env@); }
+}
+//@@ insert before 1 `match &self.absent`
+proof { lemma_env_find_miss(self.named.env@); }
 //@@ also fn meta external_body
 //@@ end
 
@@ -2304,7 +2441,7 @@ impl Doc {
 //@@ ret r
 //@@ spec
         ensures
-            r.pwf(),
+            named_has_key(self) ==> r.pwf(),
             forall|pre: State, res: Result<T, Error>, post: State| #[trigger] r.rel(pre, res, post) == flag_rel(self, present, None::<T>, pre, res, post),
 //@@ end
 
@@ -2313,6 +2450,7 @@ impl Doc {
 //@@ unit info.Info.mk_help_parser tags=C10
 //@@ ret r
 //@@ spec
+        requires named_has_key(self.help_arg),
         ensures
             r.pwf(),
             forall|pre: State, res: Result<(), Error>, post: State| #[trigger] r.rel(pre, res, post) == flag_rel(self.help_arg, (), None::<()>, pre, res, post),
@@ -2322,6 +2460,7 @@ impl Doc {
 //@@ unit info.Info.mk_version_parser tags=C10
 //@@ ret r
 //@@ spec
+        requires named_has_key(self.version_arg),
         ensures
             r.pwf(),
             forall|pre: State, res: Result<(), Error>, post: State| #[trigger] r.rel(pre, res, post) == flag_rel(self.version_arg, (), None::<()>, pre, res, post),
@@ -2330,7 +2469,8 @@ impl Doc {
 //@@ fn src/info.rs | impl Parser for Info | fn eval
 //@@ unit info.Info.eval tags=C10
 //@@ members
-    open spec fn pwf(&self) -> bool { true }
+    /// the help and version flags can be looked for (they have a name)
+    open spec fn pwf(&self) -> bool { named_has_key(self.help_arg) && named_has_key(self.version_arg) }
     /// help flag available anywhere in scope (or its variable set) => Help; otherwise version only if configured and requested
     open spec fn rel(&self, pre: State, r: Result<ExtraParams, Error>, post: State) -> bool {
         let h = help_requested(*self, pre) || env_present(self.help_arg.env@);
@@ -2349,7 +2489,7 @@ proof { assert(forall|i: int| #![trigger args.avail(i)] #![trigger old(args).ava
 //@@ ret r
 //@@ spec
         requires
-            self.inner.pwf(),
+            self.inner.pwf(), self.info.pwf(),
             old(args).wf(),
         ensures
             run_rel(*self, *old(args), r, *final(args)), // #refines_run_rel
@@ -2406,20 +2546,34 @@ where
 //@@ also fn meta external_body
 //@@ end
 
-//@@ fn src/params.rs | impl ParseArgument | fn take_argument
-//@@ unit params.ParseArgument.take_argument tags=C18,C02 external_body
+//@@ fn src/params.rs | impl ParseArgument | fn item
+//@@ unit params.ParseArgument.item tags=C12,C18
 //@@ ret r
 //@@ spec
-        requires old(args).wf(),
         ensures
-            arg_rel(self.named, self.adjacent, Metavar(self.metavar), *old(args), r, *final(args)),
+            r is Some == (first_names(self.named) is Ok), // #an_item_iff_it_has_a_name
+            r matches Some(i) ==> i is Argument && i->Argument_name == first_names(self.named)->Ok_0 && i->Argument_shorts@ == self.named.short@
+                && i->Argument_metavar == Metavar(self.metavar) && i->Argument_env == first_env(self.named.env@) && i->Argument_help == self.named.help, // #name_metavar_env_help_are_the_declared_ones
+//@@ end
+
+//@@ fn src/params.rs | impl ParseArgument | fn take_argument
+//@@ unit params.ParseArgument.take_argument tags=C18,C02,C06 only=default
+//@@ ret r
+//@@ spec
+        requires old(args).wf(), named_has_key(self.named),
+        ensures
+            arg_rel(self.named, self.adjacent, Metavar(self.metavar), *old(args), r, *final(args)), // #line_first_then_first_set_variable_then_missing
             step(*old(args), *final(args)),
+//@@ insert before 1 `args.current = None;`
+proof { lemma_env_find_hit_val(self.named.env@, val); }
+//@@ insert before 1 `if let Some(item) = self.item()`
+proof { lemma_env_find_miss(self.named.env@); }
 //@@ end
 
 //@@ fn src/params.rs | impl Parser for ParseArgument | fn eval
 //@@ unit params.ParseArgument.eval tags=C02,C06,C18
 //@@ members
-    open spec fn pwf(&self) -> bool { true }
+    open spec fn pwf(&self) -> bool { named_has_key(self.named) }
     open spec fn rel(&self, pre: State, r: Result<T, Error>, post: State) -> bool {
         exists|ro: Result<OsString, Error>| #[trigger] arg_rel(self.named, self.adjacent, Metavar(self.metavar), pre, ro, post) && match ro {
             Err(e) => r == Err::<T, Error>(e),
@@ -2925,6 +3079,8 @@ proof {
 //@@ unit escape.escape tags=C16,C04 loops=2 desugar_for_into=1 desugar_for_into=2 byte_lits cfg=docgen
 //@@ attr
 #[verifier::exec_allows_no_decreases_clause]
+#[verifier::spinoff_prover]
+#[verifier::rlimit(60)]
 //@@ spec
     ensures
         exists|frags: Seq<(Escape, Seq<u8>)>| final(out)@ == old(out)@ + #[trigger] esc_all(frags, ap, frags.len() as int).0, // #output_is_the_escaping_table_applied_fragment_by_fragment
@@ -3140,7 +3296,7 @@ proof {
 //@@ unit info.OptionParser.run_inner tags=C11,C10,C20,C09
 //@@ ret r
 //@@ spec
-        requires self.inner.pwf(),
+        requires self.inner.pwf(), self.info.pwf(),
         ensures
             r is Ok ==> exists|pre: State, post: State| pre.wf() && pre.scope.start == 0 && pre.scope.end == pre.items.len()
                 && (no_comp(pre) ==> dd_rule(pre.items@, pre.item_state@))
